@@ -62,6 +62,7 @@ pub fn spec(prop: &str) -> Spec {
         "C13" => (vec![s("hostile:C13", 1)], 800, 30000),
         "C14" => (vec![s("proxy:C14", 1)], 1200, 40000),
         "C15" => (vec![s("proxy:C15", 1)], 800, 20000),
+        "C16" => (vec![s("provision:C16", 1)], 1200, 40000),
         _ => (vec![], 0, 0),
     };
     Spec { scenarios: scen, quick_runs: q, thorough_runs: t, level: "exploration", rule: RULE_A.to_string(), exhaustive: false }
